@@ -2,31 +2,57 @@
 import os, sys, json
 from . import core, runner
 
-TIERS = {'quick': {'calls': 2500}, 'thorough': {'calls': 200000}}
+TIERS = {'quick': {'calls': 2500, 'cache': 500}, 'thorough': {'calls': 200000, 'cache': 12000}}
 
 def main(args):
-    from . import sim_calls as SC, c12_calls_driver as D
-    core.import_sut()
-    pristine = SC.pristine_tables()
     if args.replay:
         with open(args.replay) as f:
             world = json.load(f).get('world', 'calls')
-        if world == 'calls':
-            return D.replay(args.replay, pristine)
-        from . import sim_cache
-        return sim_cache.replay(args.replay)
+        if world == 'cache':
+            from . import c12_cache_driver as CD
+            return CD.replay(args.replay)
+        from . import sim_calls as SC, c12_calls_driver as D
+        core.import_sut()
+        return D.replay(args.replay, SC.pristine_tables())
     tier = args.tier if args.tier in TIERS else 'quick'
     seed = core.base_seed()
     batch = runner.Batch('C12', tier, seed)
-    n = args.runs or TIERS[tier]['calls']
-    cov = D.run(batch, n, pristine)
+    worlds = [args.world] if args.world else ['cache', 'calls']
+    cov = {'worlds': {}}
+    total = 0
+    if 'cache' in worlds:
+        # real interpreters: run before this process imports the tree under test
+        from . import c12_cache_driver as CD
+        n = args.runs or TIERS[tier]['cache']
+        cov['worlds']['cache'] = CD.run(batch, n)
+        total += n
+    if 'calls' in worlds:
+        from . import sim_calls as SC, c12_calls_driver as D
+        core.import_sut()
+        pristine = SC.pristine_tables()
+        n = args.runs or TIERS[tier]['calls']
+        cov['worlds']['calls'] = D.run(batch, n, pristine)
+        total += n
+    cov['evaluations'] = sum(w['evaluations'] for w in cov['worlds'].values())
+    cov['distinct_nontrivial'] = sum(w['distinct_nontrivial'] for w in cov['worlds'].values())
+    cov['samples'] = [s for w in cov['worlds'].values() for s in w.pop('samples', [])][:4]
+    cov['steps_total'] = cov['worlds'].get('calls', {}).get('steps_total', 0) + cov['worlds'].get('cache', {}).get('process_lifetimes', 0)
+    cov['faults_fired'] = dict(('%s.%s' % (wn, k), v) for wn, w in cov['worlds'].items() for k, v in w.get('faults_fired', {}).items())
     cov['rule'] = ('calls world: seeded histories of 2..50 API calls by 1-4 clients over shared/fresh objects; every call result is '
                    'compared with the same call in the isolated pristine execution of its thread (O1), inputs are serialised before/after (O2), '
-                   'shared tables digested (O3). distinct = distinct op-list hash; non-trivial = the history has >= 2 threads of explicit '
-                   'dependence (so at least one foreign call precedes some probe call)')
-    cov['real_components'] = ['all of miasmx/ and ply/ from the tree under test, imported from ' + core.REPO, 'CPython fork()']
-    cov['stub_components'] = ['object pool / aliasing decisions', 'isolated reference executions (same real code, pristine process)']
+                   'shared tables digested (O3); distinct = distinct op-list hash; non-trivial = the history has >= 2 threads of explicit '
+                   'dependence (so at least one foreign call precedes some probe call). cache world: a run = a seeded initial state of the parser-table '
+                   'directory (empty, warm, torn@k, hole@k, stale signature, stale table version, foreign file/dir, read-only) and 1-4 real interpreter '
+                   'lifetimes over it with crash@k / ENOSPC@k / EACCES during table writes; every surviving lifetime\'s API-visible results (imports, 80 '
+                   'assembled lines, 6 malformed lines) must equal the reference lifetimes over a private empty and a private warm directory, which '
+                   'must agree with each other; non-trivial = initial state not warm or at least one fault fired')
+    cov['real_components'] = ['all of miasmx/ and ply/ from the tree under test (' + core.REPO + ')', 'CPython fork(), import system, bytecode cache',
+                              'tmpfs directory as the cache']
+    cov['stub_components'] = ['object pool / aliasing decisions', 'isolated reference executions (same real code, pristine process)',
+                              'builtins.open fault wrapper (crash, ENOSPC, EACCES)', 'directory state constructors (torn, hole, stale, foreign)']
     assumptions = ['a forked child of the post-import parent is an exact pristine copy of interpreter state',
                    'PYTHONHASHSEED=0 in every process of this check (hash-seed dependence is C13)',
-                   'memo flags set on a result object by the call that returned it travel with that object when it is fed to a later call']
-    return batch.finish(cov, assumptions, n)
+                   'memo flags set on a result object by the call that returned it travel with that object when it is fed to a later call',
+                   'cache world: only API-visible differences decide; sys.path and late stdlib imports are recorded as diagnosis',
+                   'nothing is asserted about a lifetime the simulator itself killed']
+    return batch.finish(cov, assumptions, total)
